@@ -18,6 +18,7 @@ mod math;
 mod prng;
 mod refhpke;
 mod shrink;
+mod special;
 mod util;
 mod world;
 mod world_ops;
@@ -324,6 +325,10 @@ fn silence_panics() {
 fn model_selftest() {
     if let Err(e) = refhpke::selftest() {
         eprintln!("HARNESS ERROR: refhpke self-test failed: {}", e);
+        std::process::exit(2);
+    }
+    if let Err(e) = special::selftest() {
+        eprintln!("HARNESS ERROR: special-value table self-test failed: {}", e);
         std::process::exit(2);
     }
     for k in [suites::KemId::P256, suites::KemId::P384, suites::KemId::P521] {
@@ -715,6 +720,25 @@ fn main() {
                 let enc = refhpke::zero_x_partner(kem, &sk).expect("partner");
                 println!("{:?} {}", kem, util::hex(&enc));
             }
+            // constants for the guard-independence probe of the wipes (receiver context of a fixed
+            // configuration: its base nonce and exporter secret as RFC 9180 defines them)
+            for kem in [suites::KemId::X25519, suites::KemId::P256, suites::KemId::P384, suites::KemId::P521] {
+                let (sk, _, _) = refhpke::derive_keypair(kem, b"cfgprobe wipe recipient");
+                let (_, enc, _) = refhpke::derive_keypair(kem, b"cfgprobe wipe ephemeral");
+                let (ctx, _) = refhpke::setup_r(kem, suites::KdfId::S256, suites::AeadId::ChaCha, suites::ModeKind::Base, &enc, &sk, b"cfgprobe info", b"", b"", None).expect("setup");
+                println!("WIPE {:?} enc={} base_nonce={} exporter_secret={}", kem, util::hex(&enc), util::hex(&ctx.base_nonce), util::hex(&ctx.exporter_secret));
+            }
+            0
+        }
+        "findspecial" => {
+            let bits = a.pos.get(0).and_then(|x| x.parse().ok()).unwrap_or(24usize);
+            special::find(16, bits);
+            0
+        }
+        "findnonce" => {
+            let z = a.pos.get(0).and_then(|x| x.parse().ok()).unwrap_or(3usize);
+            let th = a.pos.get(1).and_then(|x| x.parse().ok()).unwrap_or(16usize);
+            special::find_nonce(th, z);
             0
         }
         "c18ref" => cmd_c18ref(&a),
